@@ -69,6 +69,21 @@ class SendNoCloseSource(SourceBaseNoClose):
         raise exc
 
 
+class SendInstanceSource(AClassSource):
+    """the generator methods are wired up per INSTANCE (attributes set in __init__), not defined on the class"""
+
+    def __init__(self, ctx, name, items, spec=None):
+        super().__init__(ctx, name, items, spec)
+        self.asend = self._send
+        self.athrow = self._throw
+
+    async def _send(self, value):
+        return await self.__anext__()
+
+    async def _throw(self, exc):
+        raise exc
+
+
 class ToolError(Exception):
     pass
 
@@ -182,7 +197,7 @@ def histories(draw, tier):
         h = draw(st.integers(0, 2))
         ops += [["next", h]] * fault_at + [["close", h], ["asend", h], ["next-captured", h], ["next-u"]]
     return {"items": items, "kind": draw(st.sampled_from(["agen", "agen", "aclass", "aclass_noclose", "send",
-                                                             "send_only", "send_noclose"])),
+                                                             "send_only", "send_noclose", "send_instance", "send_proxy"])),
             "mode": draw(st.sampled_from(["hooks", "bare"])), "ops": [["borrow", -1]] + ops,
             "susp": draw(st.integers(0, 1)),
             # a class-based underlying iterator fails ONCE, at its k-th pull, and works again afterwards
@@ -230,9 +245,18 @@ def check(case):
         src = SendOnlySource(ctx, "u", items, spec)
     elif kind == "send_noclose":
         src = SendNoCloseSource(ctx, "u", items, spec)
+    elif kind == "send_instance":
+        src = SendInstanceSource(ctx, "u", items, spec)
+    elif kind == "send_proxy":
+        src = SendSource(ctx, "u", items, spec)
     else:
         src = make_source(ctx, "u", items, dict(spec, fl=kind), "a")
     underlying = src.obj
+    if kind == "send_proxy":
+        # ... or reach the borrower only through a delegating proxy (__getattr__): found on the instance, not on its type
+        from ..doubles import _Proxy
+
+        underlying = _Proxy(src)
     model = _Model(list(items), fault_at)
     planned = src.fault_exc
     handles = []
